@@ -11,6 +11,7 @@ from lib import *
 ENGINE = {
     "C08": "queue", "C09": "queue", "C10": "queue", "C11": "queue", "C15": "queue", "C16": "queue",
     "C01": "client", "C02": "client", "C03": "client", "C04": "client", "C17": "client",
+    "C12": "sock", "C13": "sock", "C14": "sock",
     "C18": "holder", "C20": "c20",
     "C05": "writer", "C06": "writer", "C07": "writer", "C19": "writer",
 }
